@@ -24,8 +24,8 @@ void verif_random_reset(uint32_t);
 
 const char *verif_property = "C08";
 const char *verif_class_names[] = { "delete_of_queued_item", "stale_handle_after_slot_reuse", "callback_deletes_itself", "fd_number_reused", "signal_delivered",
-	"signal_deleted_while_queued", "fd_self_remove_by_return", "job_deleted_while_waiting", "timer_deleted_pending", "stop_from_callback", "poll_mod", "many_items", NULL };
-enum { K_DELQ, K_STALE, K_SELF, K_FDREUSE, K_SIG, K_SIGDELQ, K_FDRET, K_JOBDEL, K_TMRDEL, K_STOP, K_MOD, K_MANY };
+	"signal_deleted_while_queued", "fd_self_remove_by_return", "job_deleted_while_waiting", "timer_deleted_pending", "stop_from_callback", "poll_mod", "many_items", "double_add_refused", NULL };
+enum { K_DELQ, K_STALE, K_SELF, K_FDREUSE, K_SIG, K_SIGDELQ, K_FDRET, K_JOBDEL, K_TMRDEL, K_STOP, K_MOD, K_MANY, K_DOUBLEADD };
 const char *verif_rule =
 	"case = initial registrations + an action list consumed by every callback invocation (add job/timer/fd/signal at a priority, delete own/other/fired/stale handles, poll_mod, "
 	"write/drain pipes, close + reopen an fd number + re-add, raise, stop), <= 300 callback invocations, virtual time; non-trivial = a delete of an item that was already queued for dispatch, "
@@ -329,6 +329,14 @@ static void do_actions(int n)
 			if (s.owed > 0) { VCLASS(R, K_SIGDELQ); VCLASS(R, K_DELQ); nontriv = true; }
 			s.reg = false; s.owed = 0;
 			recompute_outstanding();
+		}
+		else if (k == 31 && !FDS.empty()) {		/* register a descriptor that is registered already: must be refused and must leave everything as it was */
+			int id = arg % FDS.size(); mfd &f = FDS[id];
+			if (!f.reg || f.rfd < 0) continue;
+			int rc = qb_loop_poll_add(L, (enum qb_loop_priority)pick_prio(), f.rfd, POLLIN, mk(FD, id), fd_cb);
+			VLOG(R, "      add descriptor %d (fd #%d) a second time -> %d\n", f.rfd, id, rc);
+			if (rc == 0) { VFAIL(R, "double-add-accepted", "qb_loop_poll_add of descriptor %d, which is registered already, returned 0", f.rfd); return; }
+			VCLASS(R, K_DOUBLEADD);
 		}
 		else if (k == 30 && arg % 8 == 0 && in_cb_kind >= 0) {
 			VLOG(R, "      stop\n");
